@@ -14,6 +14,7 @@ import (
 	"strings"
 	"sync"
 	"sync/atomic"
+	"time"
 
 	"github.com/indexsupply/shovel/jrpc2"
 	"github.com/indexsupply/shovel/shovel"
@@ -263,7 +264,7 @@ func (w *World) onRequest(s *SourceCfg, n *sim.Node, ri sim.ReqInfo) *sim.Fault 
 // Restart models process death: every connection dropped, all in-memory state
 // (pool, clients, tasks, caches) discarded and rebuilt from configuration.
 func (w *World) Restart() error {
-	w.pool.Close()
+	w.closePool()
 	w.db.KillAll()
 	pg, _ := env()
 	var err error
@@ -274,6 +275,20 @@ func (w *World) Restart() error {
 	return w.buildTasks()
 }
 
+// closePool closes the pool; pgxpool.Close waits for every checked-out connection, so a
+// connection leaked by the code under test would block it forever: then it is left to a goroutine.
+func (w *World) closePool() {
+	p := w.pool
+	for i := 0; i < 300 && p.Stat().AcquiredConns() > 0; i++ {
+		time.Sleep(time.Millisecond)
+	}
+	if p.Stat().AcquiredConns() > 0 {
+		go p.Close()
+		return
+	}
+	p.Close()
+}
+
 func (w *World) Close() {
 	if w.closed {
 		return
@@ -281,7 +296,7 @@ func (w *World) Close() {
 	w.closed = true
 	worldHooks.Delete(w)
 	if w.pool != nil {
-		w.pool.Close()
+		w.closePool()
 	}
 	pg, ns := env()
 	for _, s := range w.Sources {
@@ -400,6 +415,8 @@ type StepResult struct {
 	After   Cursor
 	Commits []*fakepg.Commit
 	Heads   []uint64
+	OpenTx  []int // server sessions that still have a transaction open after the step returned
+	Held    int32 // pool connections still checked out after the step returned
 }
 
 func (r StepResult) Outcome() string {
@@ -441,6 +458,15 @@ func (w *World) Step(p *Pair) StepResult {
 	w.mu.Unlock()
 	all := w.db.Commits()
 	res.Commits = all[nCommits:]
+	res.OpenTx = w.db.OpenTx()
+	// (pgx hands a broken connection back from a goroutine of its own: give it a moment;
+	// a connection that is never handed back is what is looked for)
+	for i := 0; i < 2000; i++ {
+		if res.Held = w.pool.Stat().AcquiredConns(); res.Held == 0 {
+			break
+		}
+		time.Sleep(time.Millisecond)
+	}
 	res.After = w.Cursor(p)
 	p.Steps++
 	p.LastErr = res.Err
